@@ -222,7 +222,7 @@ Proof.
     destruct (Haft _ Hc) as [Ht|Hhb]; [congruence|]. apply hb_lt in Hhb. lia.
   - (* a common mutex *)
     apply share_lock_common in Hs as (m & Hm & Hm').
-    eapply (mutex_hb tr (o, m) i j); try eassumption; try reflexivity; auto. intros; discriminate.
+    eapply (mutex_hb tr (lockobj I o m, m) i j); try eassumption; try reflexivity; auto. intros; discriminate.
 Qed.
 
 (* the checker is what it says: every two rows of one field are pairwise safe *)
